@@ -438,6 +438,19 @@ def prepEnum (S : Settings) (rem : Nat) (s : Sch) (bs : Bytes) : PR :=
           else tupleRest (prepV S rem) (payloadPrefix disc) fields bs1
   | _ => .error .decode
 
+/-- `PreparedUserTransaction::prepare_from_transaction_enum`: the byte after the enum value kind selects
+V1 or V2 (`bs` is the payload after the prefix byte); every other kind is fixed by the Rust type. -/
+def resolveKind (k : Kind) (bs : Bytes) : Except PErr Kind :=
+  match k with
+  | .user =>
+    match bs with
+    | _ :: d :: _ =>
+      if d = u8 C32.V1_NOTARIZED then .ok .v1notarized
+      else if d = u8 C32.V2_NOTARIZED then .ok .v2notarized
+      else .error (.unexpectedDisc (some d))
+    | _ => .error (.unexpectedDisc none)
+  | k => .ok k
+
 /-- `PreparedTransaction::prepare(raw, settings)`: `check_len`, payload prefix, the enum, `check_complete`.
 Returns the resolved kind (`user` resolves to V1 or V2). -/
 def prepare (S : Settings) (k : Kind) (payload : Bytes) : Except PErr (Kind × Prep) :=
@@ -448,17 +461,7 @@ def prepare (S : Settings) (k : Kind) (payload : Bytes) : Except PErr (Kind × P
     | .ok (p, bs) =>
       if p ≠ manifest.payloadPrefix then .error .decode
       else
-        let resolved : Except PErr Kind :=
-          match k with
-          | .user =>
-            match bs with
-            | _ :: d :: _ =>
-              if d = u8 C32.V1_NOTARIZED then .ok .v1notarized
-              else if d = u8 C32.V2_NOTARIZED then .ok .v2notarized
-              else .error (.unexpectedDisc (some d))
-            | _ => .error (.unexpectedDisc none)
-          | k => .ok k
-        match resolved with
+        match resolveKind k bs with
         | .error e => .error e
         | .ok k' =>
           match prepEnum S D k'.sch bs with
